@@ -537,6 +537,25 @@ def check(prop: str, tier: str) -> Report:
         extra_cov = {"overlapping_run_pairs": (len(ov) - n_nested) // 2, "nested_run_traces": n_nested,
                      "overlap_mismatches": len(ovm)}
         n_replayed += len(ov)
+    if prop == "C11":
+        # on_attempt_start ends the attempt before the operation runs (it raises AbortRetryError or an
+        # ordinary exception at attempt k): `attempts` still counts operation invocations
+        hk = []
+        for i, b in enumerate(behs[: (120 if tier == "quick" else 2000)]):
+            cfg = configs[b["c"] - 1]
+            for at in (1, 2):
+                for kind in ("abort",):
+                    for entry in ("Retry", "AsyncRetry"):
+                        obs = retryenv.run_scenario(cfg, b["h"], entry=entry, hooks=True, place="ctor",
+                                                    site_fault={"site": "astart", "at": at, "kind": kind})
+                        hk.append({"cfg": full_cfg(dict(cfg, hooks=True)), "ev": obs, "predicted": None,
+                                   "variant": {"entry": entry, "on_attempt_start_raises": kind, "at_attempt": at}})
+        vh = tlc_validate("RetryTrace", hk, f"{prop}-hooks")
+        for v in vh:
+            v["conf"] = 0          # M has no raising hooks: only the monitors' verdict counts here
+        judge(rep, prop, hk, vh, "on_attempt_start raising before the operation runs")
+        extra_cov = {"attempt_hook_abort_traces": len(hk)}
+        n_replayed += len(hk)
     if prop == "C14":
         # the captured timeline must be the metric/log stream: run the execute-style behaviours
         # with capture_timeline and let TLC compare the timeline with the monitor's own record
